@@ -331,6 +331,36 @@ def check(run: Run, prog: Program, model: Model, tier: str) -> None:
         seen.add(q)
         hidden_state(run, prog, ci, "STATELESS")
     run.floor("STATELESS", 6)
+    # reading `value[key]` of the caller's mapping without a dominating `key in value` runs `__missing__` of dict
+    # subclasses (collections.defaultdict INSERTS the key): validating a value would then change it
+    from ..partial import _guarded_key
+    from ..visits import Config, configs_for, run_visit, validator_ctx
+    for vis in ("Validator", "SubstitutorValidator"):
+        fvd = model.visitors[vis].lookup("visit_dict")
+        bad_sites: Set[str] = set()
+        n_reads = 0
+        for cfg in configs_for(model.by_hook["visit_dict"], "quick"):
+            for p in run_visit(prog, model, vis, "visit_dict", cfg, validator_ctx, unroll=1):
+                for e in p.events:
+                    if e.kind == "partial" and e.data.get("op") == "getitem" and e.data.get("operands") \
+                            and e.data["operands"][0].key() == "value":
+                        n_reads += 1
+                        if not _guarded_key(e.data["operands"][0], e.data["operands"][1], p, e):
+                            bad_sites.add(e.loc(prog))
+        c_ = f"{vis}.visit_dict: member lookup on the validated mapping"
+        if bad_sites:
+            run.violated("NO-WRITE", c_, sorted(bad_sites)[0],
+                         "`value[key]` is evaluated without a dominating `key in value`: for a dict subclass with __missing__ "
+                         "(defaultdict, Counter) the lookup fabricates - and defaultdict stores - the missing key",
+                         witness="validate(schema.dict({'tags': schema.list}), defaultdict(list)) leaves {'tags': []} in the caller's value")
+        elif n_reads:
+            run.holds("NO-WRITE", c_, fvd.loc, f"{n_reads} member reads, each under a membership test", nontrivial=True)
+    # a memoising decorator is hidden state too: on the kind-sensitive conversion path an equality-keyed cache makes the
+    # result of an operation depend on which EQUAL value of another kind was converted earlier in the process
+    from .c14 import _memo
+    conv = model.visitors["Substitutor"].lookup("_from_native")
+    _memo(run, prog, model, prog.func("d42.utils._from_native.from_native"), rule="MEMO-PURE",
+          roots=[conv] if conv is not None else None, prefixes=("d42.utils", "d42.substitution"))
     run.analysed["singletons"] = sorted(model.singletons)
 
     fixture_selftest(run)
